@@ -13,7 +13,7 @@ MANIFEST = dict(
     note='Trusted: Coq kernel + vm_compute, translate/c08_sites.py (which call sites matter: copy() methods of the five ID classes and collapse_one; other functions that build objects from a foreign map are not in the census), hand models SM/IdMan.v, SM/IdLife.v, SM/IdWorld.v, SM/IdNode.v (tied by differential runs), CPython refcount/gc for __del__ timing. The kinds are independent single-kind models (each class uses the manager of its kind: census obligation). Node IDs reserved by Instance.fixup_key are never released (leak, not modelled). Direct writes to Entity._keys / the deprecated Entity.keys dict bypass the node-ID rule. Maps opened with preserve_ids=True are exempt by definition.',
 )
 
-IMPORTS = ['SV.SM.IdMan', 'SV.SM.IdManSpec', 'SV.SM.IdLife', 'SV.SM.IdWorld', 'SV.SM.IdNode', 'SV.Gen.IdSites_gen', 'SV.Props.C08',
+IMPORTS = ['SV.SM.IdMan', 'SV.SM.IdManSpec', 'SV.SM.IdLife', 'SV.SM.IdFixupHist', 'SV.SM.IdWorld', 'SV.SM.IdNode', 'SV.Gen.IdSites_gen', 'SV.Props.C08',
            'Coq.ZArith.ZArith', 'Coq.Lists.List']
 PRE = '''Import ListNotations. Open Scope Z_scope.
 Fixpoint zl_eqb (a b : list Z) : bool := match a, b with [] , [] => true | x :: a', y :: b' => Z.eqb x y && zl_eqb a' b' | _, _ => false end.
@@ -134,48 +134,107 @@ def corr_idman(ck: Ck) -> None:
 
 
 # ------------------------------------------------------------------------------------------------ fixups
+def run_fixup_case(init, ops, via_entity: bool):
+    """One EntityFixup history on the implementation -> sorted [(variable number, index)].
+
+    ops: ('set'|'setdefault'|'update'|'del'|'pop'|'clear'|'rebuild'|'copy'|'deepcopy'|'pickle', variable number)."""
+    import copy as _copy
+    import pickle
+    from srctools.vmf import VMF, Entity, EntityFixup, FixupValue
+    vals = [FixupValue(f'v{v}', 'x', ind) for v, ind in init]
+    ent = None
+    if via_entity:
+        ent = Entity(VMF(), {'classname': 'func_instance'}, fixup=vals)
+        fx = ent.fixup
+    else:
+        fx = EntityFixup(vals)
+    for o, v in ops:
+        if o == 'set':
+            fx[f'v{v}'] = 'y'
+        elif o == 'setdefault':
+            fx.setdefault(f'$V{v}', 'z')
+        elif o == 'update':
+            fx.update({f'v{v}': 'u'})
+        elif o == 'del':
+            del fx[f'V{v}']
+        elif o == 'pop':
+            fx.pop(f'v{v}', None)
+        elif o == 'clear':
+            fx.clear()
+        elif o == 'rebuild':        # what Entity.copy() does with the fixups
+            if ent is not None:
+                ent = ent.copy()
+                fx = ent.fixup
+            else:
+                fx = EntityFixup(fx.copy_values())
+        elif o == 'copy':
+            fx = _copy.copy(fx)
+            ent = None
+        elif o == 'deepcopy':
+            fx = _copy.deepcopy(fx)
+            ent = None
+        elif o == 'pickle':
+            fx = pickle.loads(pickle.dumps(fx))
+            ent = None
+    return sorted((int(f.var.lstrip('$')[1:]), f.id) for f in fx._fixup.values())
+
+
+_FX_COQ = {'set': 'FSet', 'setdefault': 'FSet', 'update': 'FSet', 'del': 'FDel', 'pop': 'FDel'}
+
+
 def corr_fixups(ck: Ck, require_positive: bool, defer: bool = True) -> None:
-    from srctools.vmf import EntityFixup, FixupValue
     n = ck.budget(300, 3000)
     cases = []
     for i in range(n):
         rng = ck.rng
         init = [(rng.randint(0, 5), rng.choice([0, -1, 1, 1, 2, 3, 4, 7, 12])) for _ in range(rng.choice([0, 1, 3, 6]))]
-        ops = [(rng.choice(['set', 'set', 'del']), rng.randint(0, 7)) for _ in range(rng.choice([0, 2, 6, 12]))]
-        fx = EntityFixup([FixupValue(f'v{v}', 'x', ind) for v, ind in init])
-        for o, v in ops:
-            if o == 'set':
-                fx[f'v{v}'] = 'y'
+        ops = []
+        for _ in range(rng.choice([0, 2, 6, 12])):
+            r = rng.random()
+            if r < 0.45:
+                ops.append((rng.choice(['set', 'set', 'setdefault', 'update']), rng.randint(0, 7)))
+            elif r < 0.70:
+                ops.append((rng.choice(['del', 'del', 'pop']), rng.randint(0, 7)))
+            elif r < 0.74:
+                ops.append(('clear', 0))
+            elif r < 0.88:
+                ops.append(('rebuild', 0))
             else:
-                del fx[f'V{v}']
-        got = sorted((int(f.var[1:]), f.id) for f in fx._fixup.values())
+                ops.append((rng.choice(['copy', 'deepcopy', 'pickle']), 0))
+        via_entity = rng.random() < 0.4
+        got = run_fixup_case(init, ops, via_entity)
         cases.append((init, ops, got))
         ck.count('fixup_histories')
+        for o, _ in ops:
+            ck.hist('fixup_ops', o)
         if len(got) > 1:
             ck.seen(('fixup', tuple(init), tuple(ops)))
         ids = [g[1] for g in got]
         if len(set(ids)) != len(ids) or any(x <= 0 for x in ids):
             key = 'fixup-index-nonpositive-from-init' if all(x > 0 for _, x in init) is False and len(set(ids)) == len(ids) else 'fixup-index-duplicate'
             ck.violation(key, 'EntityFixup holds a duplicate or non-positive replaceNN index',
-                         {'init': init, 'ops': ops, 'result': got})
+                         {'init': init, 'ops': ops, 'via_entity': via_entity, 'result': got,
+                          'how': 'checks.c08.run_fixup_case(init, ops, via_entity)'})
     ck.sample({'fixup_init(var,index)': cases[-1][0], 'ops': cases[-1][1], 'impl_result_sorted': cases[-1][2]})
     rp = ('true' if require_positive else 'false') + (' true' if defer else ' false')
     pre = PRE + '''
 Fixpoint ins (p : Z * Z) (l : list (Z * Z)) := match l with [] => [p] | q :: r => if (fst p <? fst q) then p :: l else q :: ins p r end.
 Definition srt (l : list (Z * Z)) := fold_right ins [] l.
-Definition fx_run (rp df : bool) (c : list (Z * Z) * list (bool * Z)) : list (Z * Z) :=
-  srt (fold_left (fun (f : fixups) (o : bool * Z) => if fst o then fx_set (snd o) f else fx_del (snd o) f) (snd c) (fx_init rp df (fst c))).
+Definition fx_run (rp df : bool) (c : list (Z * Z) * list fxop) : list (Z * Z) := srt (fx_hist rp df (fst c) (snd c)).
 Fixpoint pl_eqb (a b : list (Z * Z)) : bool := match a, b with [], [] => true | (x, y) :: a', (u, v) :: b' => Z.eqb x u && Z.eqb y v && pl_eqb a' b' | _, _ => false end.
 '''
     def pairs(l):
         return coq_list(f'({a}, {b})' if b >= 0 else f'({a}, ({b}))' for a, b in l)
+
+    def cop(o, v):
+        if o in _FX_COQ:
+            return f'{_FX_COQ[o]} {v}'
+        return {'clear': 'FClear', 'rebuild': 'FRebuild'}.get(o, 'FCopy')
     bad = []
     for lo in range(0, len(cases), 500):
         part = cases[lo:lo + 500]
-        lit = coq_list(
-            f'(({pairs(i)}, {coq_list("(%s, %d)" % ("true" if o == "set" else "false", v) for o, v in ops)}), {pairs(g)})'
-            for i, ops, g in part)
-        vals = ck.coq_eval(IMPORTS, [f'bad_idx (fun c : (list (Z * Z) * list (bool * Z)) * list (Z * Z) => pl_eqb (fx_run {rp} (fst c)) (snd c)) 0 {lit}'], name='fixup', preamble=pre)
+        lit = coq_list(f'(({pairs(i)}, {coq_list(cop(o, v) for o, v in ops)}), {pairs(g)})' for i, ops, g in part)
+        vals = ck.coq_eval(IMPORTS, [f'bad_idx (fun c : (list (Z * Z) * list fxop) * list (Z * Z) => pl_eqb (fx_run {rp} (fst c)) (snd c)) 0 {lit}'], name='fixup', preamble=pre)
         if vals is None:
             ck.obligation('correspondence:fixup', False, 'model could not be evaluated')
             ck.tie_broken.append('correspondence EntityFixup: model evaluation failed')
@@ -183,9 +242,10 @@ Fixpoint pl_eqb (a b : list (Z * Z)) : bool := match a, b with [], [] => true | 
         from harness.common import parse_coq_N_list
         bad += [lo + i for i in parse_coq_N_list(vals[0])]
     ck.obligation('correspondence:fixup', not bad,
-                  f'{len(cases)} EntityFixup histories, model fx_init/fx_set/fx_del vs implementation: {len(bad)} disagreements')
+                  f'{len(cases)} EntityFixup histories (constructor, set/setdefault/update, del/pop, clear, rebuild via copy_values/Entity.copy, '
+                  f'copy/deepcopy/pickle), model fx_hist vs implementation: {len(bad)} disagreements')
     if bad:
-        ck.tie_broken.append('correspondence EntityFixup (SM/IdLife.v fx_* vs srctools.vmf.EntityFixup)')
+        ck.tie_broken.append('correspondence EntityFixup (SM/IdFixupHist.v fx_hist vs srctools.vmf.EntityFixup)')
         ck.extra['fixup_disagreement'] = {'case': cases[bad[0]]}
 
 
@@ -1137,6 +1197,7 @@ def run(ck: Ck) -> None:
             'group_copies_allocate_in_destination_map': 'copy_to_dest KGroup',
             'node_id_not_released_on_remove': 'negb node_release_on_remove',
             'every_keyvalue_write_goes_through_node_registration': 'keys_writes_registered',
+            'every_fixup_table_write_is_a_modelled_operation': 'fixup_writes_modelled',
             'no_unclassified_release_site': 'forallb (fun x : kind * site * String.string => match snd (fst x) with SOther => false | _ => true end) release_sites',
         })
         corr_idman(ck)
@@ -1167,6 +1228,7 @@ def run(ck: Ck) -> None:
         ck.explain('instance:fixup_constructor_tests_positivity')
         ck.explain('instance:fixup_set_searches_from_1')
         ck.explain('instance:fixup_constructor_reinserts')
+        ck.explain('instance:every_fixup_table_write_is_a_modelled_operation')
         ck.explain('correspondence:fixup')
     if has('node-id-'):
         ck.explain('instance:node_id_not_released_on_remove')
